@@ -157,6 +157,7 @@ for _pid, _sp in PROPS.items():
             _t["sample_mod"] = _THOROUGH_SAMPLING[_t["cfg"]]
         _th.append(_t)
     _sp["thorough"] = _th
+PROPS["C03"]["thorough"].append({"module": "MC_C03", "cfg": "MC_C03b_thorough.cfg", "nprimes": 12, "timeout": 10800})
 
 NOT_APPLICABLE = {}
 HOOK_COMMITS = []
